@@ -137,6 +137,30 @@ def check_blocked_quit(run, case, tier='quick'):
         if len(late) == 2:
             run.violation('an explicit quit typed on a terminal and followed by further requests (ENTER, h) while the generator was blocked on its output was not honoured: ' + late[-1], case,
                           observed=late); return
+        # a quit typed ahead on the terminal, before the program has started to read: it is a quit like any other
+        late = []
+        for attempt, settle in enumerate([2.0, 6.0]):
+            s4 = f'{sn}ptya{attempt}'
+            out, err, rc, to, info = cli.run_cli_blocked('pcfg_guesser.py', ['-r', name, '-s', s4], [], settle=settle, use_pty=True, pretyped=b'q\n')
+            run.ev('cli_runs'); run.ev('blocked_cli_runs'); run.add_to_set('stdin_conditions', 'pty with q typed ahead')
+            if to:
+                run.inconc('typed-ahead quit: watchdog'); break
+            if not ref.startswith(out) or (out and not out.endswith(b'\n')):
+                run.violation('q typed ahead on a terminal: stdout is not a line-aligned prefix of the uninterrupted stream', case, observed=out[-120:].decode('utf-8', 'replace')); return
+            if len(out) > info.get('fill', 0) + 2 * 8192 + 2 * maxpt + 4096 + 65536:
+                late.append(f'{len(out)} bytes written of a stream of {len(ref)}, settle {settle}s')
+                continue
+            out2, err2, rc2, to2 = cli.run_cli('pcfg_guesser.py', ['-r', name, '-s', s4, '--load'], stdin_mode='open')
+            run.ev('cli_runs'); run.ev('cli_resumes')
+            if not to2:
+                lost = Counter(ref.split(b'\n')) - (Counter(out.split(b'\n')) + Counter(out2.split(b'\n')))
+                if lost:
+                    run.violation(f'q typed ahead on a terminal + --load lost {sum(lost.values())} guesses', case, observed=[x.decode('utf-8', 'replace') for x in list(lost)[:5]]); return
+            run.ev('typed_ahead_quits_honoured')
+            late = []
+            break
+        if len(late) == 2:
+            run.violation('an explicit quit typed ahead on a terminal (it was waiting in the input queue when the program started) was not honoured: ' + late[-1], case, observed=late); return
         # end of input on the terminal (CTRL-D at the start of a line) is a standard-input condition, not a request to quit
         out, err, rc, to, info = cli.run_cli_blocked('pcfg_guesser.py', ['-r', name, '-s', sn + 'eof'], [b'\x04'], settle=0.5, use_pty=True)
         run.ev('cli_runs'); run.ev('blocked_cli_runs'); run.add_to_set('stdin_conditions', 'pty CTRL-D while blocked')
